@@ -474,7 +474,18 @@ def ceilings(ctx, P):
         ext = call_blocks(b, r'Vec::<.*>::extend_from_slice$')
         defs = single_defs(b)
         gd = []
-        for g, op, side in direct_cmp_switches(b, is_call_to(r'Vec::<.*>::len$|::len$'), None):
+        # the length compared with the limit is the length of the ACCUMULATOR (the buffer extend_from_slice appends to), taken anew in
+        # every iteration - not the size of the first or of the last chunk
+        acc = set(_root_place(b, t['args'][0], defs) for i, t in b.calls(r'Vec::<.*>::extend_from_slice$') if t['args'])
+        import callgraph as _cg
+        _edges = {i: set(j for j, _ in b.succ(i)) for i in range(len(b.blocks)) if not b.blocks[i]['c']}
+        _loops = [set(c) for c in _cg.sccs(_edges) if len(c) > 1 and set(c) & set(ext)]
+        def acc_len(kind, v):
+            if kind != 'call' or not re.search(r'Vec::<.*>::len$|::len$', v['f'].get('fn', '') or '') or not v['args']:
+                return False
+            blk = next((i for i, t in b.calls() if t is v), None)
+            return _root_place(b, v['args'][0], defs) in acc and any(blk in lp for lp in _loops)
+        for g, op, side in direct_cmp_switches(b, acc_len, None):
             og = b.switch_origins(g)
             if has_origin(og, r'param:3$'):
                 gd.append(g)
